@@ -25,13 +25,13 @@ CLAIMED = {
    ref="DESIGN.md section 3, C04"),
  "C05": dict(level="exploration",
    text="Generated-input search on both levels named by the property: (a) the real BackendReqHandler is fed grammar-aware byte streams (valid messages of random codes with one mutator each on size/flags/code/body fields, truncation, extension, random tails, 0..=40 descriptors at byte 0 or a random byte, after a random negotiation prefix) and random byte strings; every handler invocation must be explained by a protocol-valid message (independent predicates) literally present in the sent bytes at increasing offsets, no call may panic. (b) a running daemon receives sequences of well-typed messages with adversarial 64-bit fields (regions at the top of the address space, unmappable sizes, ring addresses around region edges, indexes up to 255 and beyond); no thread may panic, the process must not crash (supervising parent turns a signal into a replayable violation).",
-   note="Trusted: refpred.rs / spec.rs, the 'message present in the stream' oracle (resynchronisation after an error is the server's choice), overflow-checks + debug-assertions in the harness build. A set REPLY bit on a request and out-of-bounds reads that do not alter arguments are not judged here (the latter: ASan fuzz target). Descriptors passed by the generator back the ranges the messages declare (a mapping past the end of a file faults in any mmap-based back end).",
-   technique="grammar-aware mutational property testing (proptest) with independent validity oracle; crash isolation by supervising process",
+   note="Trusted: refpred.rs / spec.rs, the 'message present in the stream' oracle (resynchronisation after an error is the server's choice), overflow-checks + debug-assertions in the harness build. A set REPLY bit on a request and out-of-bounds reads that do not alter arguments are not judged here (the latter only in the ASan build of the libFuzzer target). Descriptors passed by the generator back the ranges the messages declare (a mapping past the end of a file faults in any mmap-based back end).",
+   technique="grammar-aware mutational property testing (proptest) with independent validity oracle; crash isolation by supervising process; thorough tier adds a coverage-guided libFuzzer campaign (fuzz/c05_stream, same oracle inside the target, ASan), quick tier replays its corpus",
    ref="DESIGN.md section 3, C05"),
  "C06": dict(level="exploration",
    text="Mutation-based property testing of every reply parser on the front-end side: for each reply-awaiting call of Frontend (reply-bearing operations and acknowledged set-operations), Backend proxy (5 requests) and GpuBackend (4 calls) the raw peer answers with the conforming reply transformed by 0..2 mutators (code, REPLY bit, NEED_REPLY, version, reserved flag bits, size field, body bytes from the lattice, descriptors added/removed, truncation + close, random bytes); a three-valued oracle derived from the property's own conjunct list decides MUST_ACCEPT (returned value must equal the bytes sent) / MUST_REJECT (Ok is a fabricated success) / EITHER. The request server for back-end-initiated requests is fed mutated streams with 0..=3 descriptors: no panic (catch_unwind, crash isolation) and every handler invocation must be explained by a well-formed request literally present in the stream. 36k cases in quick.",
    note="Trusted: feops.rs / spec.rs (conforming replies), refpred.rs (body validity). EITHER where the statement is silent: size-field-only changes, NEED_REPLY on a reply, values an endpoint may refuse for other reasons (queue count above the maximum, config flags that differ from the request).",
-   technique="mutational property testing (proptest) of reply parsers with a three-valued oracle; stream fuzzing of the request server with an independent validity oracle",
+   technique="mutational property testing (proptest) of reply parsers with a three-valued oracle; stream fuzzing of the request server with an independent validity oracle; thorough tier adds coverage-guided libFuzzer campaigns (fuzz/c06_reply, fuzz/c06_bereq, same oracles inside the targets), quick tier replays their corpora",
    ref="DESIGN.md section 3, C06"),
  "C07": dict(level="exploration",
    text="Exhaustive enumeration on both endpoints: every acknowledged subset of the 10 gating protocol-feature bits (11 in the postcopy build), each also combined with all non-gating bits, x PROTOCOL_FEATURES offered/acknowledged x every gated operation on the real Frontend (a raw peer counts the bytes put on the wire) and on the real BackendReqHandler (the raw peer negotiates exactly the subset, then sends the gated request; handler log must not grow); every negotiation word up to length 3/4 (front-end API calls resp. raw messages, incl. acknowledge-then-un-acknowledge) followed by every gated operation; the 2^3 Backend-proxy flag settings x 5 requests; GET_PROTOCOL_FEATURES for 47 systematic and 2000 random device feature sets (REPLY_ACK always offered). About 220k cases in quick, complete for the stated finite spaces.",
@@ -100,8 +100,8 @@ CLAIMED = {
    ref="DESIGN.md section 3, C19"),
  "C20": dict(level="exploration",
    text="Exhaustive enumeration of a boundary lattice per message type (about 9.5 million bit patterns, complete for the lattice) plus random 64-bit patterns, each judged in both directions against an independent predicate written from the property text in u128 arithmetic. Validators are pure functions of a few integer fields whose rules only have boundaries at the lattice points, so lattice-exhaustive + random search is the right level; it is not a proof over all 2^k patterns.",
-   note="Trusted: refpred.rs (hand-written from the property/spec), the verif-hooks accessors that expose the private header validators. Bit patterns the rules leave open (range ending exactly at 2^64, padding word of the single-region body, inflight mmap_size==0) are accepted either way and counted as spec_silent.",
-   technique="exhaustive boundary-lattice enumeration + proptest random patterns vs. independent reference predicate",
+   note="Trusted: refpred.rs (hand-written from the property/spec), the verif-hooks accessors that expose the private header validators. A range whose exclusive end is exactly 2^64 counts as a 64-bit wrap. Bit patterns the rules leave open (padding word of the single-region body, inflight mmap_size==0) are accepted either way and counted as spec_silent.",
+   technique="exhaustive boundary-lattice enumeration + proptest random patterns vs. independent reference predicate; thorough tier adds a coverage-guided libFuzzer campaign (fuzz/c20_valid)",
    ref="DESIGN.md section 3, C20"),
 }
 
@@ -143,6 +143,8 @@ def main():
         "engines": [
             {"name": "vverif", "path": "/verif/harness", "serves_properties": sorted(CLAIMED.keys()),
              "kind_free_text": "Rust binary: proptest TestRunner (fixed seed from VERIF_SEED, shrinking, replay files) + exhaustive enumerators + reference models/oracles; one subcommand per property"},
+            {"name": "libfuzzer-targets", "path": "/verif/fuzz", "serves_properties": ["C05", "C06", "C20"],
+             "kind_free_text": "cargo-fuzz crate (libFuzzer, ASan, debug assertions): targets c05_stream, c06_reply, c06_bereq, c20_valid call the harness library's oracles (harness/src/fuzzing.rs); driven by tools/fuzz_campaign.py from ./check <Cxx> thorough; crash artifacts are re-executed strictly by vverif before anything is reported"},
         ],
         "checks": checks,
         "not_applicable": na,
